@@ -9,6 +9,7 @@ from ..core import Ctx, StopRun, ts, epoch, DAY, OPEN_S, CLOSE_S, iso
 from .. import calendar_ref as cal
 
 NAME = "clock"
+ISOLATE = "fork"
 PROPS = ("C12", "C13")
 CHUNK = {"quick": 40, "thorough": 40}
 RULE = ("(weekday of start, weekday of end, range-length class, start time-of-day, pre/post flags, schedule kind "
@@ -55,6 +56,13 @@ def generate(rng, focus, tier="quick"):
             "post": rng.random() < 0.5, "wd": rng.choice(cal.WEEKDAYS), "pm": rng.random() < 0.3, "fault": None}
     if rng.random() < 0.3:
         plan["wd"] = plan["wd"].lower() if rng.random() < 0.7 else plan["wd"].capitalize()
+    # other clocks and schedules created and used earlier in the same process: they must not matter
+    plan["before"] = []
+    for _ in range(rng.choice([0, 0, 1, 2, 3])):
+        bd = rng.randrange(cal.epoch_day(1999, 1, 1), cal.epoch_day(2024, 12, 1))
+        plan["before"].append({"start": bd * DAY + rng.choice(TODS[:3]), "end": (bd + rng.choice([0, 3, 10, 40])) * DAY + TODS[-1],
+                               "pre": rng.random() < 0.5, "post": rng.random() < 0.5,
+                               "wd": rng.choice(cal.WEEKDAYS), "pm": rng.random() < 0.3})
     r = rng.random()
     if r < 0.06:
         plan["fault"] = "end_before_start"
@@ -80,6 +88,16 @@ def _run(plan, ctx):
     from qstrader.system.rebalance.daily import DailyRebalance
     from qstrader.system.rebalance.end_of_month import EndOfMonthRebalance
     from qstrader.system.rebalance.buy_and_hold import BuyAndHoldRebalance
+    for b in plan.get("before", []):
+        try:
+            list(DailyBusinessDaySimulationEngine(ts(b["start"]), ts(b["end"]), pre_market=b["pre"], post_market=b["post"]))
+            WeeklyRebalance(ts(b["start"]), ts(b["end"]), b["wd"], pre_market=b["pm"])
+            DailyRebalance(ts(b["start"]), ts(b["end"]), pre_market=b["pm"])
+            EndOfMonthRebalance(ts(b["start"]), ts(b["end"]), pre_market=b["pm"])
+            BuyAndHoldRebalance(ts(b["start"]))
+        except Exception:
+            pass
+        ctx.fault("earlier_clock_in_same_process")
     start, end = plan["start"], plan["end"]
     S, E = ts(start), ts(end)
     if plan.get("start_us"):
@@ -221,7 +239,7 @@ def _run(plan, ctx):
         ctx.probe("buy_and_hold_rolled_to_next_business_day")
 
 
-SHRINK_LISTS = ()
+SHRINK_LISTS = ("before",)
 
 
 def simplifications(plan):
